@@ -263,7 +263,16 @@ func shape(m *FileModel) []string {
 				if j < len(s) {
 					j++
 				}
-				b.WriteString(s[i:j])
+				lit := s[i:j]
+				if c == '"' {
+					// messages name the declared type ("field x in T: required"): type names are renamed there too
+					for _, k := range keys {
+						if isType[k] {
+							lit = replaceWord(lit, k, ren[k])
+						}
+					}
+				}
+				b.WriteString(lit)
 				i = j
 				continue
 			}
